@@ -1,6 +1,7 @@
 """C14: drive the REAL pypyr code (Context.get_eval_string, pypyr.steps.py, pypyr.steps.pyimport)
 on a case and canonicalise what can be seen from outside."""
 import builtins
+import functools
 import importlib
 import os
 import shutil
@@ -49,6 +50,8 @@ class Canon:
             return {'mod': v.__name__}
         if v is builtins.__dict__:
             return {'nat': '<builtins>'}
+        if isinstance(v, functools.partial) and getattr(v.func, '__module__', None) == 'pypyr.steps.py':
+            return {'nat': '<save>'}
         if isinstance(v, types.FunctionType):
             if v.__module__ == 'pypyr.steps.py' and v.__name__ == 'save':
                 return {'nat': '<save>'}
